@@ -688,3 +688,35 @@ func (w *World) Page(store string, match []string, q *Query) ([]string, int64) {
 	}
 	return ids, total
 }
+
+// ResolveAny exposes symbol resolution for building other Symbols implementations from a World:
+// values are nil | string | int64 | float64 | bool | time.Time.
+func (w *World) ResolveAny(store string, row *Row, path string) (vals []any, isSet bool, ok bool) {
+	vs, set, _, found := w.resolve(store, row, path)
+	if !found {
+		return nil, false, false
+	}
+	for _, v := range vs {
+		if v.null {
+			vals = append(vals, nil)
+		} else {
+			vals = append(vals, v.v)
+		}
+	}
+	return vals, set, true
+}
+
+// Paths lists the candidate scalar and set paths of a store with their declared types.
+func Paths(store string) (scalars map[string]Type, sets map[string]Type) {
+	scalars, sets = map[string]Type{}, map[string]Type{}
+	for _, c := range scalarLhs[store] {
+		scalars[c.path] = c.typ
+	}
+	for _, c := range setLhs[store] {
+		sets[c.path] = c.typ
+	}
+	return
+}
+
+func SubSets(store string) []string     { return subSets[store] }
+func TargetOf(store, set string) string { return symbols[store][set].Target }
